@@ -120,7 +120,8 @@ class Combine1Fiber(NumericJob):
                 new = x0[0] + 2 * BIN * np.arange(npix // 2)
             if not stacked:
                 x, flux, iv = x[0], flux[0], iv[0]
-            yield dict(x=x, flux=flux, iv=iv, new=new, method=rng.choice(["traditional", "traditional", "noconst", "mean", "nothing", "damp"]),
+            fpar = (base, 0.0 if kind == "constant" else amp, per, start)
+            yield dict(x=x, flux=flux, iv=iv, new=new, fpar=fpar, method=rng.choice(["traditional", "traditional", "noconst", "mean", "nothing", "damp"]),
                        with_ivar=stacked or rng.random() < 0.8, kind=kind, grid=grid,
                        inp=dict(rep=rep, nspec=nspec, npix=npix, flux=kind, zero_weights=pat, grid=grid))
 
@@ -165,6 +166,14 @@ class Combine1Fiber(NumericJob):
             err = np.abs(nf - f0)[good | inner].max()
             if err > 2e-3 * max(1.0, np.abs(f0).max()):
                 bad.append(("same_grid_identity_where_weighted", "max deviation %g where the output carries weight" % err))
+        # a smooth noise-free spectrum is reproduced on ANY output grid wherever the output carries weight (the same-grid identity generalised)
+        if c["kind"] in ("smooth", "constant") and X.shape[0] == 1 and method != "damp" and good.any():
+            b_, a_, p_, s_ = c["fpar"]
+            ftrue = b_ + a_ * np.sin((new - s_) / BIN / p_)
+            err = np.abs(nf - ftrue)[good].max()
+            if err > 5e-3 * max(1.0, np.abs(f0).max()):
+                k = int(np.flatnonzero(good)[np.argmax(np.abs(nf - ftrue)[good])])
+                bad.append(("same_grid_identity_where_weighted", "grid %s: output pixel %d (ivar %g) is %g, the smooth spectrum there is %g" % (c["grid"], k, ni[k], nf[k], ftrue[k])))
         if c["kind"] != "noisy":
             cs = (0.25, 4.0)[c["inp"]["rep"] % 2]
             nf2, ni2 = _call(x0.copy(), f0 * cs, n0.copy(), objivar=(iv0 / cs ** 2) if with_ivar else None, **kw)
